@@ -110,6 +110,27 @@ def r_escpair(P, chk):
     un = P.func("print_xml_as_text", "xml.c")
     U = unescaper_table(un)
     if len(U) < 6:
+        # second style: the raw text is appended and then decoded by one replace pass per entity
+        passes = []
+        for c in un.calls("d_string_replace_text_in_range"):
+            if len(c["c"]) < 6:
+                continue
+            a, b = strip(c["c"][4]), strip(c["c"][5])
+            if a is not None and b is not None and a["k"] == "StringLiteral" and b["k"] == "StringLiteral" and \
+                    a["s"].startswith("&") and a["s"].endswith(";") and len(b["s"]) == 1:
+                passes.append((a["s"][1:], ord(b["s"]) & 0xff, c))
+        if len(passes) >= 6:
+            pos = un.cfg.positions()
+            U = {ent: (byte, len(ent), len(ent), ord(ent[0]), c["l"]) for ent, byte, c in passes}
+            amp = [c for ent, byte, c in passes if ent == "amp;"]
+            others = [c for ent, byte, c in passes if ent != "amp;"]
+            ok = bool(amp) and all(un.cfg.dominates(o["i"], amp[0]["i"]) for o in others)
+            chk.obligation(rid, "print_xml_as_text (replace-pass style): `&amp;` is decoded after every other entity", ok)
+            if not ok:
+                chk.violation(rid, "unesc:order:amp", un.where(amp[0]) if amp else un.where(), "print_xml_as_text decodes `&amp;` before "
+                              "other entities: text that was escaped as `&amp;lt;` (a literal `&lt;` in the document) is decoded twice "
+                              "and comes back as `<`")
+    if len(U) < 6:
         raise AnalysisBroken("print_xml_as_text: only %d entity patterns recognised (helper rewritten?)" % len(U))
     for fname, unit in (("mmd_print_source_opml", "opml.c"), ("mmd_print_source_itmz", "itmz.c")):
         f = P.func(fname, unit)
@@ -193,15 +214,41 @@ def r_escaper_complete(P, chk, formats=("html", "odf")):
                 chk.violation(rid, "escaper:%s:highbyte" % fn, f.where(), "%s does not pass byte 0x%02x through unchanged when plain char is %s "
                               "(emits %r, calls %s): multi-byte UTF-8 text is rewritten byte-wise, e.g. into a numeric character "
                               "reference of a negative value" % (fn, bad[0], "signed" if signed else "unsigned", lit, other))
-    for fn, unit in (("mmd_print_string_html", "html.c"), ("mmd_print_string_opendocument", "opendocument-content.c")):
-        if fn.split("_")[-1] not in ("html", "opendocument"):
-            continue
+    printers = {"html": ("mmd_print_string_html", "html.c"), "odf": ("mmd_print_string_opendocument", "opendocument-content.c"),
+                "latex": ("mmd_print_string_latex", "latex.c")}
+    for fmt in formats:
+        fn, unit = printers[fmt]
         f = P.func(fn, unit)
+        if f is None:
+            raise AnalysisBroken("%s is gone" % fn)
         target = fn.replace("string", "char")
         ok = any(True for _ in f.calls(target))
-        chk.obligation(rid, "%s prints every byte through %s" % (fn, target), ok)
+        chk.obligation(rid, "%s prints bytes through %s" % (fn, target), ok)
         if not ok:
             chk.violation(rid, "escaper:%s:bypass" % fn, f.where(), "%s no longer routes characters through %s" % (fn, target))
+        # a fast path may copy a run of the string raw only if the run is delimited by a set that contains every byte the
+        # character escaper does not pass through unchanged (strcspn / strpbrk with a literal set)
+        raw = [c for c in f.calls() if c.get("callee") in ("d_string_append", "d_string_append_c_array") and len(c["c"]) > 2
+               and (strip(c["c"][2]) or {}).get("k") != "StringLiteral"]
+        if raw:
+            cf = P.func(target, unit)
+            esc = set()
+            for signed in (True, False):
+                E, _dk = escaper_table(cf, signed=signed)
+                esc |= {v for v in range(1, 256) if E[v][0] is not None or not E[v][1] or [o for o in E[v][2] if o != "ran_num_next"]}
+            sets = []
+            for c in f.calls():
+                if c.get("callee") in ("strcspn", "strpbrk") and len(c["c"]) > 2:
+                    lit = strip(c["c"][2])
+                    if lit is not None and lit["k"] == "StringLiteral":
+                        sets.append({ord(ch) & 0xff for ch in lit["s"]})
+            missing = sorted(esc - set().union(*sets)) if sets else sorted(esc)
+            okr = bool(sets) and not missing
+            chk.obligation(rid, "%s: raw run copies are delimited by a set covering all %d escaped bytes" % (fn, len(esc)), okr)
+            if not okr:
+                chk.violation(rid, "escaper:%s:rawrun" % fn, f.where(raw[0]), "%s copies part of the string without escaping; the "
+                              "delimiting set misses %s, which %s escapes" % (
+                                  fn, ", ".join(repr(chr(b)) for b in missing[:8]) or "everything (no delimiting set)", target))
 
 
 # ---------------------------------------------------------------------------
